@@ -28,6 +28,7 @@ import Driver.Small1
 import Driver.Abs
 import Driver.Nms
 import Driver.Sites
+import Driver.G72x
 open Sf
 
 def lawOf (s : String) : Option G711.Law :=
@@ -101,4 +102,5 @@ def main (args : List String) : IO UInt32 := do
   | "abs" :: rest => AbsDriver.cmd rest
   | "nms" :: rest => Driver.Nms.cmd rest
   | "sites" :: _ => SitesDriver.cmd
+  | "g72x" :: rest => Driver.G72x.cmd rest
   | _ => IO.eprintln "usage: sfmodel <g711|...> ..."; return 2
